@@ -908,16 +908,28 @@ func (sw *SlidingWindow) handleLateData(eventTime time.Time, allowedLateness tim
 		}
 	}
 	sort.Slice(slots, func(i, j int) bool { return slots[i].End.Before(*slots[j].End) })
+	// Take the late row into the snapshots of ALL these windows before the first
+	// delivery: each delivery releases the lock, and the trigger goroutine may fire
+	// a window and evict the late row from sw.data before the next one is built.
+	type lateUpdate struct {
+		slot *types.TimeSlot
+		rows []types.Row
+	}
+	updates := make([]lateUpdate, 0, len(slots))
 	for _, slot := range slots {
-		if _, open := sw.triggeredWindows[sw.getWindowKey(*slot.End)]; open {
-			sw.triggerLateUpdateLocked(slot)
+		if rows := sw.prepareLateUpdateLocked(slot); len(rows) > 0 {
+			updates = append(updates, lateUpdate{slot: slot, rows: rows})
 		}
+	}
+	for _, u := range updates {
+		sw.deliverLateUpdateLocked(u.slot, u.rows)
 	}
 }
 
-// triggerLateUpdateLocked triggers a late update for a window (must be called with lock held)
-// Late updates include complete window data (original + late data)
-func (sw *SlidingWindow) triggerLateUpdateLocked(slot *types.TimeSlot) {
+// prepareLateUpdateLocked builds the complete data of a late update for a window
+// (original snapshot + late data) and records it as the window's new snapshot.
+// Must be called with lock held; it does not release it.
+func (sw *SlidingWindow) prepareLateUpdateLocked(slot *types.TimeSlot) []types.Row {
 	// Find the triggered window info to get snapshot data
 	var windowInfo *triggeredWindowInfo
 	windowKey := sw.getWindowKey(*slot.End)
@@ -966,7 +978,7 @@ func (sw *SlidingWindow) triggerLateUpdateLocked(slot *types.TimeSlot) {
 	}
 
 	if len(resultData) == 0 {
-		return
+		return nil
 	}
 
 	// Update snapshot to include late data (for future late updates)
@@ -981,7 +993,12 @@ func (sw *SlidingWindow) triggerLateUpdateLocked(slot *types.TimeSlot) {
 			}
 		}
 	}
+	return resultData
+}
 
+// deliverLateUpdateLocked sends a prepared late update (must be called with lock
+// held; the lock is released while the update is delivered and taken again).
+func (sw *SlidingWindow) deliverLateUpdateLocked(slot *types.TimeSlot, resultData []types.Row) {
 	// Get callback reference before releasing lock
 	callback := sw.callback
 
